@@ -91,9 +91,10 @@ class TimeSym(object):
                 return self._lin(e.args[0], nid)
             if name == "timetuple" and isinstance(e.func, ast.Attribute):
                 return self._lin(e.func.value, nid)
-            if name == "shift_time" and len(e.args) == 2:
-                a = self._lin(e.args[0], nid)
-                b = self._lin(e.args[1], nid)
+            if name == "shift_time" and arg_of(e, 0, "dtime") is not None \
+                    and arg_of(e, 1, "shift") is not None:
+                a = self._lin(arg_of(e, 0, "dtime"), nid)
+                b = self._lin(arg_of(e, 1, "shift"), nid)
                 if a is None or b is None:
                     return None
                 return linear._add(a, b)
